@@ -927,6 +927,13 @@ func (m *Machine) convert(v Value, from, to types.Type) Value {
 				}
 				return m.mkString(m.sliceTerms(x))
 			case *Term:
+				if _, isConst := evalConst(x); !isConst {
+					// symbolic rune: a one-byte string if the rune is ASCII on this path (otherwise the
+					// length of the encoding depends on the value: concretise)
+					if m.branch(m.tt.Ult(x, m.tt.Const(0x80, x.W))) {
+						return m.mkString([]*Term{m.tt.Extract(x, 7, 0)})
+					}
+				}
 				c := m.concInt(x, "int->string")
 				return StringVal{S: string(rune(c))}
 			}
@@ -1510,6 +1517,17 @@ func (m *Machine) lookup(fr *Frame, x *ssa.Lookup) Value {
 	if s, ok := base.(StringVal); ok {
 		idx := m.get(fr, x.Index).(*Term)
 		ts := m.stringTerms(s)
+		if _, isConst := evalConst(idx); !isConst && len(ts) > 0 && len(ts) <= 64 {
+			// symbolic index into a short string: bounds check, then an ite chain (no fork per position)
+			if !m.branch(m.tt.Ult(idx, m.tt.Const(uint64(len(ts)), idx.W))) {
+				m.goPanic(fmt.Sprintf("runtime error: index out of range [symbolic] with length %d", len(ts)))
+			}
+			res := ts[len(ts)-1]
+			for i := len(ts) - 2; i >= 0; i-- {
+				res = m.tt.Ite(m.tt.Eq(idx, m.tt.Const(uint64(i), idx.W)), ts[i], res)
+			}
+			return res
+		}
 		i := m.boundedIndex(idx, len(ts), false)
 		return ts[i]
 	}
@@ -1555,9 +1573,6 @@ func (m *Machine) rangeStart(v Value) Value {
 		}
 		return it
 	case StringVal:
-		if x.Sym != nil {
-			m.unsupported("range over symbolic string")
-		}
 		return &RangeIter{S: x}
 	}
 	m.unsupported(fmt.Sprintf("range over %T", v))
@@ -1566,6 +1581,20 @@ func (m *Machine) rangeStart(v Value) Value {
 
 func (m *Machine) rangeNext(it *RangeIter, x *ssa.Next) Value {
 	tt := m.tt
+	if x.IsString && it.S.Sym != nil {
+		// symbolic string: single-byte (ASCII) runes only — a byte that may be >= 0x80 would start a
+		// multi-byte sequence whose length depends on its value
+		if it.I >= len(it.S.Sym) {
+			return TupleVal{tt.F, tt.Const(0, 64), tt.Const(0, 32)}
+		}
+		b := it.S.Sym[it.I]
+		if !m.branch(tt.Ult(b, tt.Const(0x80, 8))) {
+			m.unsupported("range over symbolic string: non-ASCII byte")
+		}
+		i := it.I
+		it.I++
+		return TupleVal{tt.T, tt.Const(uint64(i), 64), tt.ZExt(b, 32)}
+	}
 	if x.IsString {
 		if it.I >= len(it.S.S) {
 			return TupleVal{tt.F, tt.Const(0, 64), tt.Const(0, 32)}
